@@ -7,6 +7,7 @@ and defaults (R03-defaults), dropping of absent map-each results and typed absen
 concat's skip-absent / in-order joins (R03-concat).
 """
 from lib import *
+import sem
 
 LEVEL = "other"
 EXPLANATION = ("Static rules over the type-checked HIR and MIR of the function-call pipeline: every cast that "
@@ -319,69 +320,122 @@ def rule_defaults(E, R):
         R.cannot(rule, SIMPLE_COMPILE, "anchor not found")
 
 
+def _ty(n):
+    return norm(n.get("ty", "")).replace("&mut ", "").replace("&", "").strip()
+
+
+def _type_param_rooted(S, n, frame):
+    """the expression is a local of type types::Type, possibly converted/cloned (the declared return type travelling as a value)"""
+    n = sem.peel(n)
+    while n.get("k") == "MethodCall" and n["m"] in ("into", "clone") and not n["args"]:
+        n = sem.peel(n["recv"])
+    b = S.lookup(n, frame)
+    return b is not None and b.pat is not None and _ty(b.pat) == "types::Type"
+
+
 def rule_dropabsent(E, R):
     rule = "R03-dropabsent"
     h = E.hir(COMPUTE_FN)
     if not h:
         return R.cannot(rule, COMPUTE_FN, "anchor not found")
-    body = h["body"]
-    ms = list(find_matches(body, into_closures=False))
+    S = sem.Sem(E, h)
+    pRes = lambda v: _ty(v.node).startswith("core::result::Result<types::LhsValue")
+    pVal = lambda v: _ty(v.node) == "types::LhsValue"
+    UV = sem.enum_universe(E, "types::LhsValue")
     # absent first argument -> Err(Array(return_type))
     found_err = False
-    for m in ms:
-        for a in m["arms"]:
-            if pat_variant(a["pat"]) == "core::result::Result::Err":
-                rets = [r for r in exprs(a["body"], "Ret")]
-                for r in rets:
-                    e = strip(r.get("e", {}))
-                    if e.get("k") == "Call" and norm(e.get("callee", "")) == "core::result::Result::Err":
-                        inner = strip(e["args"][0])
-                        found_err = inner.get("k") == "Call" and norm(inner.get("callee", "")) == "types::Type::Array" \
-                            and local_name(chain(inner["args"][0])[0]) == "return_type"
+    for x in S.result_leaves():
+        e = x.node
+        if e.get("k") == "Call" and norm(e.get("callee", "")) == "core::result::Result::Err":
+            inner = strip(e["args"][0])
+            if inner.get("k") == "Call" and norm(inner.get("callee", "")) == "types::Type::Array" and \
+                    _type_param_rooted(S, inner["args"][0], x.frame):
+                adm = sem.admitted_tuples(x.pc, [pRes], [["Result::Ok", "Result::Err"]])
+                found_err = found_err or adm == {("Result::Err",)}
     R.check(found_err, rule, COMPUTE_FN, "absent mapped argument -> Err(Array(return_type))", where=h["span"])
     # element results: filter_map / filter_map_to
-    for variant, meth in (("types::LhsValue::Map", "filter_map"), ("types::LhsValue::Array", "filter_map_to")):
+    for variant, meth in (("LhsValue::Map", "filter_map"), ("LhsValue::Array", "filter_map_to")):
         good = False
-        wild_unreachable = False
-        for m in ms:
-            for a in m["arms"]:
-                if pat_variant(a["pat"]) == variant:
-                    good = any(c["m"] == meth for c in exprs(a["body"], "MethodCall", into_closures=False))
-                    bad = [c["m"] for c in exprs(a["body"], "MethodCall", into_closures=False)
-                           if c["m"] in ("map", "map_to", "flat_map")]
-                    good = good and not bad
-        R.check(good, rule, COMPUTE_FN, "%s elements go through %s (absent results dropped)" % (last_seg(variant), meth),
-                where=h["span"])
+        bad = []
+        for x in S.sites():
+            if x.node.get("k") != "MethodCall" or x.in_closure:
+                continue
+            adm = sem.admitted_tuples(x.pc, [pVal], [UV])
+            if adm != {(variant,)}:
+                continue
+            if x.node["m"] == meth:
+                good = True
+            if x.node["m"] in ("map", "map_to", "flat_map"):
+                bad.append(x.node["m"])
+        R.check(good and not bad, rule, COMPUTE_FN, "%s elements go through %s (absent results dropped)" % (last_seg(variant), meth),
+                "found also %s" % bad if bad else "", h["span"])
     # non map-each: Some(v) => Ok(v), None => Err(return_type)
     hc = E.hir(COMPILE_FN)
     ok = False
     if hc:
-        for m in find_matches(hc["body"]):
-            s = strip(m["scrut"])
-            if s.get("k") == "Call" and local_name(s.get("f", {})) == "call":
-                some_ok = err_rt = False
-                for a in m["arms"]:
-                    if pat_variant(a["pat"]) == "core::option::Option::Some":
-                        t = tail(a["body"])
-                        some_ok = t.get("k") == "Call" and norm(t.get("callee", "")) == "core::result::Result::Ok" \
-                            and local_name(t["args"][0]) in pat_bindings(a["pat"])
-                    else:
-                        t = tail(a["body"])
-                        err_rt = t.get("k") == "Call" and norm(t.get("callee", "")) == "core::result::Result::Err" \
-                            and local_name(t["args"][0]) == "return_type"
-                ok = some_ok and err_rt
+        Sc = sem.Sem(E, hc)
+        for c in exprs(hc["body"], "Call"):
+            if norm(c.get("callee", "")) != "filter::CompiledValueExpr::new":
+                continue
+            clo = closure_of(c["args"][0])
+            if not clo:
+                continue
+            some_ok = err_rt = False
+            for x in Sc.closure_leaves(clo):
+                e = x.node
+                if e.get("k") != "Call":
+                    continue
+                lits = [(a, pol) for a, pol in sem.is_literals(x.pc) if len(a.scruts) == 1 and
+                        sem.peel(a.scruts[0].node).get("k") == "Call" and path_res(sem.peel(a.scruts[0].node).get("f", {})) and
+                        path_res(sem.peel(a.scruts[0].node)["f"]).get("r") == "local"]
+                if not lits:
+                    continue
+                a, pol = lits[-1]
+                heads = {sem.variant_head(y[0]) for y in a.alts}
+                is_some = (pol and heads == {"Option::Some"}) or (not pol and heads == {"Option::None"})
+                is_none = (pol and heads == {"Option::None"}) or (not pol and heads == {"Option::Some"})
+                if norm(e.get("callee", "")) == "core::result::Result::Ok" and is_some:
+                    b_ = Sc.lookup(sem.peel(e["args"][0]), x.frame)
+                    some_ok = b_ is not None and b_.expr is not None and sem.peel(b_.expr) is sem.peel(a.scruts[0].node)
+                if norm(e.get("callee", "")) == "core::result::Result::Err" and is_none:
+                    err_rt = _type_param_rooted(Sc, e["args"][0], x.frame) and sem.peel(e["args"][0]).get("k") == "Path"
+            ok = ok or (some_ok and err_rt)
     R.check(ok, rule, COMPILE_FN, "plain call: Some(v) -> Ok(v), None -> Err(return_type)",
             "an absent result must behave like an absent field of the declared return type", hc["span"] if hc else "")
+
+
+def _mentions_arg_result(f):
+    """does a formula test a value of type Result<LhsValue, Type> (an evaluated argument)?"""
+    t = f[0]
+    if t == "not":
+        return _mentions_arg_result(f[1])
+    if t in ("and", "or"):
+        return any(_mentions_arg_result(g) for g in f[1])
+    if t != "atom":
+        return False
+    a = f[1]
+    nodes = [v.node for v in (a.scruts or []) if hasattr(v, "node")] + [v.node for v in (a.l, a.r) if v is not None and hasattr(v, "node")] + \
+        ([a.node] if a.node is not None else [])
+    for n in nodes:
+        n = strip(n)
+        tops = [n] + ([n["recv"]] + n["args"] if n.get("k") == "MethodCall" else (n.get("args", []) if n.get("k") == "Call" else []))
+        for x in tops:
+            if _ty(strip(x)).startswith("core::result::Result<types::LhsValue"):
+                return True
+    if a.kind == "forall":
+        return _mentions_arg_result(a.r)
+    return False
 
 
 def rule_absence(E, R):
     """an argument without a value is passed on as a typed absence: evaluated arguments reach the function as
     `Result<LhsValue, Type>` unmodified, in both the memoised and the re-evaluating path, and the run-time closures
-    have no early exit of their own"""
+    never leave early because of the outcome of evaluating an argument"""
     rule = "R03-absence"
     hc = E.hir(COMPILE_FN)
     if not hc:
         return R.cannot(rule, COMPILE_FN, "anchor not found")
+    S = sem.Sem(E, hc)
     n = 0
     # every run-time closure handed to CompiledValueExpr::new
     for c in exprs(hc["body"], "Call"):
@@ -391,16 +445,20 @@ def rule_absence(E, R):
         if not clo:
             continue
         n += 1
-        rets = [r for r in exprs(clo["body"], "Ret")]
-        R.check(not rets, rule, COMPILE_FN, "run-time closure #%d has no early return (an absent argument does not short-circuit the call)" % n,
-                "the closure returns early: e.g. bailing out when an argument is absent makes memoised and re-evaluated "
-                "arguments disagree and hides the typed absence from the function", clo["sp"])
+        own = [x for x in S.sites() if x.node is clo]
+        base = len(own[0].pc) if own else 0
+        bad_rets = []
+        for x in S.sites():
+            if x.node.get("k") in ("Ret", "Break") and sem.within(x, clo) and x.in_closure[-1] is clo and x.frame is S.root:
+                if any(_mentions_arg_result(f) for f, pol in x.pc[base:]):
+                    bad_rets.append(x.node.get("sp", ""))
+        R.check(not bad_rets, rule, COMPILE_FN, "run-time closure #%d has no early return (an absent argument does not short-circuit the call)" % n,
+                "the closure leaves early depending on an argument's evaluation result (%s): bailing out when an argument is absent makes "
+                "memoised and re-evaluated arguments disagree and hides the typed absence from the function" % bad_rets, clo["sp"])
         for m in exprs(clo["body"], "MethodCall"):
             if m["m"] != "collect":
                 continue
             root, ch = chain(m)
-            if local_name(root) not in ("args", "extra_args"):
-                continue
             if not any(x["m"] == "map" and closure_of(x["args"][0]) and
                        any(y["m"] == "execute" for y in exprs(closure_of(x["args"][0])["body"], "MethodCall")) for x in ch):
                 continue
@@ -421,36 +479,73 @@ def rule_concat(E, R):
     h = E.hir(fn)
     if not h:
         return R.cannot(rule, fn, "anchor not found")
-    body = h["body"]
-    rets = list(exprs(body, "Ret"))
-    ok_ret = all(strip(r.get("e", {})).get("k") == "Call" and
-                 norm(strip(r["e"]).get("callee", "")) == "core::option::Option::Some" for r in rets)
-    R.check(len(rets) >= 2 and ok_ret, rule, fn, "returns Some(..) as soon as a present argument is found", where=h["span"])
-    t = tail(body)
-    R.check(def_path(t) == "core::option::Option::None", rule, fn, "all arguments absent -> None", where=h["span"])
-    err_skips = False
-    for m in find_matches(body):
-        for a in m["arms"]:
-            if pat_variant(a["pat"]) == "core::result::Result::Err":
-                err_skips = not list(exprs(a["body"], ("Ret", "Break")))
-    R.check(err_skips, rule, fn, "an absent argument is skipped (no return/break)", where=h["span"])
-    # concat_array: flat_map(ok) + extend in order
+    S = sem.Sem(E, h, inline=False)
+    pRes = lambda v: _ty(v.node).startswith("core::result::Result<types::LhsValue")
+    UR = ["Result::Ok", "Result::Err"]
+    somes = [x for x in S.result_leaves() if x.node.get("k") == "Call" and norm(x.node.get("callee", "")) == "core::option::Option::Some"]
+    present = [x for x in somes if sem.admitted_tuples(x.pc, [pRes], [UR]) == {("Result::Ok",)}]
+    R.check(len(present) >= 2 and len(present) == len(somes), rule, fn, "returns Some(..) as soon as a present argument is found", where=h["span"])
+    nones = [x for x in S.result_leaves() if def_path(x.node) == "core::option::Option::None"]
+    tries = [x for x in S.sites() if sem.is_try(x.node) and sem.is_method(sem.try_inner(x.node), "next") is not None and
+             norm(x.node.get("ty", "")).startswith("core::result::Result<types::LhsValue")]
+    none_ok = (bool(nones) and all(not any(_mentions_arg_result(f) for f, _ in x.pc) for x in nones)) or (not nones and bool(tries))
+    R.check(none_ok, rule, fn, "all arguments absent -> None", where=h["span"])
+    exits = [x for x in S.sites() if x.node.get("k") in ("Ret", "Break") and not x.node.get("x") and x.frame is S.root]
+    err_skips = all(("Result::Err",) not in sem.admitted_tuples(x.pc, [pRes], [UR]) or
+                    not any(_mentions_arg_result(f) for f, _ in x.pc) for x in exits)
+    R.check(err_skips and bool(exits), rule, fn, "an absent argument is skipped (no return/break)", where=h["span"])
+    # concat_array: every present array is appended, in order
     fa = "functions::concat::concat_array"
     ha = E.hir(fa)
     if ha:
-        ext = [c for c in exprs(ha["body"], "MethodCall") if c["m"] == "extend" and local_name(c["recv"]) == "vec"]
-        R.check(len(ext) >= 2, rule, fa, "every present array is appended with extend()", where=ha["span"])
+        Sa = sem.Sem(E, ha, inline=False)
+        tv = [x for x in Sa.sites() if x.node.get("k") == "Call" and norm(x.node.get("callee", "")).endswith("Array::try_from_vec")]
+        V = sem.root_local(Sa, tv[0].node["args"][1], tv[0].frame) if tv and len(tv[0].node["args"]) > 1 else None
+        ext = [x for x in Sa.sites() if x.node.get("k") == "MethodCall" and x.node["m"] == "extend" and V is not None and
+               sem.root_local(Sa, x.node["recv"], x.frame) is V]
+        # (a) every element taken out of the argument iterator with next() ends up in an extend
+        nexts = [x for x in Sa.sites() if x.node.get("k") == "MethodCall" and x.node["m"] == "next" and
+                 sem.param_index(Sa, x.node["recv"], x.frame, through_mut=True) == 1]
+        taken_ok = all(any(sem.passes_through(Sa, e.node["args"][0], e.frame, nx.node) for e in ext) for nx in nexts)
+        # (b) a loop over the whole rest of the iterator extends with each element
+        loop_ok = False
+        for ls, pat, it in sem.for_loops(Sa):
+            its = [it]
+            cur = sem.peel(it)
+            while cur.get("k") == "MethodCall":
+                if cur["m"] == "chain":
+                    its.append(cur["args"][0])
+                cur = sem.peel(cur["recv"])
+            whole = False
+            for cand in its:
+                b_, _, _, ms = sem.provenance(Sa, cand, ls.frame, through_mut=True)
+                if b_ is not None and sem.param_index(Sa, cand, ls.frame, through_mut=True) == 1 and \
+                        chain_verdict([{"m": m_} for m_ in ms if m_ not in ("flat_map", "chain", "once")], terminal_ok=()) == "ok":
+                    whole = True
+            if whole and any(any(y is e.node for y in walk(ls.node)) for e in ext):
+                loop_ok = True
+        R.check(bool(ext) and taken_ok and loop_ok, rule, fa, "every present array is appended with extend()",
+                "extend sites %d, next()-taken elements appended: %s, loop over the rest appends: %s" % (len(ext), taken_ok, loop_ok), ha["span"])
         bad = [c["m"] for c in exprs(ha["body"], "MethodCall") if c["m"] in LOSSY - {"flat_map", "next"}]
         R.check(not bad, rule, fa, "no lossy adaptor on the argument iterator", str(bad), ha["span"])
-        iv = [c for c in exprs(ha["body"], "MethodCall") if c["m"] == "into_vec" and local_name(c["recv"]) == "accumulator"]
-        R.check(len(iv) == 1, rule, fa, "result starts with the first present array (accumulator.into_vec())", where=ha["span"])
+        acc_ok = V is not None and V.expr is not None and sem.param_index(Sa, V.expr, V.frame) == 0 and \
+            sem.provenance(Sa, V.expr, V.frame)[3] == ["into_vec"]
+        R.check(acc_ok, rule, fa, "result starts with the first present array (accumulator.into_vec())", where=ha["span"])
     else:
         R.cannot(rule, fa, "anchor not found")
     fb = "functions::concat::concat_bytes"
     hb = E.hir(fb)
     if hb:
-        ext = [c for c in exprs(hb["body"], "MethodCall") if c["m"] == "extend_from_slice" and local_name(c["recv"]) == "accumulator"]
-        R.check(len(ext) == 1, rule, fb, "every present byte string is appended with extend_from_slice()", where=hb["span"])
+        Sb = sem.Sem(E, hb, inline=False)
+        ext = [x for x in Sb.sites() if x.node.get("k") == "MethodCall" and x.node["m"] == "extend_from_slice" and
+               sem.param_index(Sb, x.node["recv"], x.frame) == 0]
+        in_loop = False
+        for ls, pat, it in sem.for_loops(Sb):
+            b_, _, _, ms = sem.provenance(Sb, it, ls.frame)
+            if sem.param_index(Sb, it, ls.frame) == 1 and chain_verdict([{"m": m_} for m_ in ms], terminal_ok=()) == "ok" and \
+                    any(any(y is e.node for y in walk(ls.node)) for e in ext):
+                in_loop = True
+        R.check(len(ext) == 1 and in_loop, rule, fb, "every present byte string is appended with extend_from_slice()", where=hb["span"])
         bad = [c["m"] for c in exprs(hb["body"], "MethodCall") if c["m"] in LOSSY - {"next"}]
         R.check(not bad, rule, fb, "no lossy adaptor on the argument iterator", str(bad), hb["span"])
     else:
